@@ -72,6 +72,11 @@ def jobs(tier):
         pairs = [pairs[(seed * 6 * 5 + i * 9) % len(pairs)] for i in range(6)]
     for i, pr in enumerate(pairs):
         out.append(("subset.%s" % "+".join(pr), "job_subset", dict(opts=pr, mv="1" if i % 2 else "3")))
+    if tier != "quick":
+        for i, tr in enumerate(itertools.combinations(names, 3)):
+            out.append(("subset.%s" % "+".join(tr), "job_subset", dict(opts=list(tr), mv=("1", "2", "3")[i % 3])))
+        for opt in OPTIONS:          # every single option also for meta version 2
+            out.append(("route.%s.v2" % opt, "job_route", dict(opt=opt, mv="2")))
     out.append(("subset.all.v1", "job_subset", dict(opts=[o for o in names if o != "meta-version"], mv="1")))
     out.append(("subset.all.v2", "job_subset", dict(opts=[o for o in names if o not in ("meta-version", "align")], mv="2")))
     for mv in ("1", "3"):
